@@ -8,7 +8,6 @@ pub mod biscuit_parser {
         use vstd::prelude::*;
         // stand-in for biscuit_parser::error::LanguageError (opaque here)
         #[verifier::external_body]
-        #[derive(Debug)]
         pub struct LanguageError { _p: u8 }
     }
 }
@@ -42,6 +41,15 @@ pub mod error {
     //@extract biscuit-auth/src/error.rs :: enum RunLimit
     //@end
 
+    // `unwrap` / `expect` need `E: Debug` (formatting only)
+    impl core::fmt::Debug for Format {
+        #[verifier::external_body]
+        fn fmt(&self, f: &mut core::fmt::Formatter<'_>) -> core::fmt::Result { unimplemented!() }
+    }
+    impl core::fmt::Debug for Token {
+        #[verifier::external_body]
+        fn fmt(&self, f: &mut core::fmt::Formatter<'_>) -> core::fmt::Result { unimplemented!() }
+    }
     impl vstd::std_specs::convert::FromSpecImpl<Format> for Token {
         open spec fn obeys_from_spec() -> bool { true }
         open spec fn from_spec(v: Format) -> Token { Token::Format(v) }
